@@ -598,6 +598,60 @@ func (c *Ctx) headerCtorRules(r *Report, prefix string, bf *buildersFile) {
 			}
 		}
 	}
+	if len(c.callsTo(nm, nh)) == 0 {
+		// NewMessage builds the header itself: the same table and the same four flag cases, on its own body
+		wantM := map[string]string{"InitiatorSPI": "p0", "ResponderSPI": "p1", "ExchangeType": "p2", "MajorVersion": fmt.Sprintf("const:%d", hv("major")), "MinorVersion": fmt.Sprintf("const:%d", hv("minor")), "MessageID": "p5"}
+		gotM := map[string][]string{}
+		for _, b := range nm.Blocks {
+			for _, ins := range b.Instrs {
+				st, ok := ins.(*ssa.Store)
+				if !ok {
+					continue
+				}
+				fa, ok := st.Addr.(*ssa.FieldAddr)
+				if !ok || !strings.HasPrefix(FieldKey(fa.X.Type(), fa.Field), "field:message.IKEHeader.") {
+					continue
+				}
+				fk := strings.TrimPrefix(FieldKey(fa.X.Type(), fa.Field), "field:message.IKEHeader.")
+				if fk == "Flags" {
+					continue
+				}
+				gotM[fk] = append(gotM[fk], c.originOf(nm, st.Val, func(ssa.Value) bool { return false }))
+			}
+		}
+		var badM []string
+		for k, w := range wantM {
+			if g := gotM[k]; len(g) != 1 || g[0] != w {
+				badM = append(badM, fmt.Sprintf("%s <- %v, expected %s", k, g, w))
+			}
+		}
+		for k, g := range gotM {
+			if _, ok := wantM[k]; !ok {
+				// NextPayload / PayloadBytes: only the zero values NewHeader would have been given
+				for _, o := range g {
+					if o != "const:0" && o != "const:nil" && o != "nil" {
+						badM = append(badM, fmt.Sprintf("%s <- %s, expected the zero value", k, o))
+					}
+				}
+			}
+		}
+		for _, cse := range [][2]bool{{false, false}, {true, false}, {false, true}, {true, true}} {
+			want := int64(0)
+			if cse[0] {
+				want |= hv("flag_response")
+			}
+			if cse[1] {
+				want |= hv("flag_initiator")
+			}
+			got, ok := evalFlagsField(nm, map[int]bool{3: cse[0], 4: cse[1]}, "Flags")
+			if !ok || got != want {
+				badM = append(badM, fmt.Sprintf("response=%v initiator=%v gives flags %#x (evaluated=%v), expected %#x", cse[0], cse[1], got, ok, want))
+			}
+		}
+		sort.Strings(badM)
+		r.Check(len(badM) == 0 && okP, rule, "message.NewMessage", c.Pos(nm.Pos()), "builds the header itself: version 2.0, SPIs / exchange type / message id = arguments, flags as NewHeader; Payloads = payloads", "NewMessage builds a header that differs from NewHeader's: "+strings.Join(badM, "; "))
+		return
+	}
 	r.Check(okM && okP, rule, "message.NewMessage", c.Pos(nm.Pos()), "NewHeader(iSPI, rSPI, exchgType, response, initiator, mId, NoNext, nil) and Payloads = payloads", "NewMessage does not pass its arguments through in order")
 }
 
